@@ -163,6 +163,11 @@ class ExitStackStub:
             self._it.call_value(fn, list(args), dict(kwargs), self._ev, None)
 
 
+class IdentityDict(dict):
+    """weakref.WeakKeyDictionary / WeakValueDictionary at module level: a mapping that lives as long as the module
+    (the evaluated scenarios keep their objects alive, so weakness makes no difference)."""
+
+
 class ExtFunc:
     """A function of a modelled library (or a factory result of one) carried around as a value."""
 
@@ -239,12 +244,29 @@ class ConfigStub:
         return (self.lower_bound, self.upper_bound)
 
 
+class _Follow(set):
+    """The functions an evaluation follows: the ones listed, plus the private module-level helpers of the modules they
+    live in (a function that was factored out of a followed function belongs to the implementation)."""
+
+    def __init__(self, names):
+        super().__init__(names)
+        self.modules = {n.rsplit(".", 1)[0] for n in names} | {n.rsplit(".", 2)[0] for n in names if n.count(".") >= 2}
+
+    def __contains__(self, qualname) -> bool:
+        if set.__contains__(self, qualname):
+            return True
+        if not isinstance(qualname, str) or "." not in qualname:
+            return False
+        mod, _, short = qualname.rpartition(".")
+        return short.startswith("_") and not short.startswith("__") and mod in self.modules
+
+
 class Interp:
     def __init__(self, prog, native: Tuple[type, ...], follow: Sequence[str] = (), stubs: Optional[Dict[str, Callable]] = None, globals_: Optional[Dict[str, Any]] = None, max_depth: int = 8):
         self.prog = prog
         self.native = tuple(native) + (ExitStackStub, ConfigStub, PoolStub, ExtFunc)
         self.config = ConfigStub()
-        self.follow = set(follow)
+        self.follow = _Follow(follow)
         self.memo_calls: Dict[Any, Any] = {}
         self.stubs = dict(stubs or {})
         self.stubs.setdefault("contextlib.ExitStack", lambda it_, ev, c, a, k: ExitStackStub(it_, ev))
@@ -400,6 +422,8 @@ class Interp:
             f = c.func
             text = norm(f)
             sym = self.prog.resolve(unit, text) if isinstance(f, (ast.Name, ast.Attribute)) else None
+            if isinstance(sym, str) and sym in ("weakref.WeakKeyDictionary", "weakref.WeakValueDictionary") and not c.args and not c.keywords:
+                return IdentityDict()
             if isinstance(sym, str) and sym in EXTERNAL and sym.startswith(("re.", "collections.")):
                 args = [ev_.eval(a) for a in c.args]
                 kw = {k.arg: ev_.eval(k.value) for k in c.keywords}
